@@ -66,6 +66,9 @@ func newScope(rootProvider *provider, parent *scope, ctx context.Context, cancel
 	s.context = ctx
 
 	if err := s.runInitializers(); err != nil {
+		// Nobody will ever see this scope: dispose what its initializers created
+		// and release the derived context.
+		_ = s.Close()
 		return nil, err
 	}
 
